@@ -3,6 +3,10 @@
 on such dicts, and the statement's laws as pure functions (expected merge result).
 
 Nothing here looks at breezy; the model is what the property statement says.
+
+New / changed file contents are unique per entry (no two files share a line), so that content
+based rename detection on git trees has nothing to latch on to - with one deliberate exception:
+every file->symlink edit uses the same target "t" (two unrelated entries with identical content).
 """
 import itertools
 from collections import namedtuple
@@ -108,7 +112,7 @@ def edits(tree):
             return t
         nm = fid.decode()
         if e.kind == "file":
-            yield ("mod(%s)" % nm, "mod", put(content=e.content + b"more\n"))
+            yield ("mod(%s)" % nm, "mod", put(content=e.content + b"more " + fid + b"\n"))
             yield ("chmod(%s)" % nm, "chmod", put(exec=not e.exec))
             yield ("to_link(%s)" % nm, "file->symlink", put(kind="symlink", content="t", exec=False))
             t = put(kind="directory", content=None, exec=False)
@@ -116,10 +120,10 @@ def edits(tree):
             yield ("to_dir(%s)" % nm, "file->dir", t)
         if e.kind == "symlink":
             yield ("retarget(%s)" % nm, "retarget", put(content=e.content + "2"))
-            yield ("to_file(%s)" % nm, "symlink->file", put(kind="file", content=b"was link\n"))
+            yield ("to_file(%s)" % nm, "symlink->file", put(kind="file", content=b"was link " + fid + b"\n"))
         if e.kind == "directory":
             t = {k: v for k, v in tree.items() if k not in subtree(tree, fid) or k == fid}
-            t[fid] = e._replace(kind="file", content=b"was dir\n")
+            t[fid] = e._replace(kind="file", content=b"was dir " + fid + b"\n")
             yield ("to_file(%s)" % nm, "dir->file", t)
         if _free_name(tree, e.parent, e.name + "2"):
             yield ("ren(%s)" % nm, "ren-" + tag, put(name=e.name + "2"))
